@@ -107,6 +107,10 @@ func init() {
 		runs = append(runs, RunSpec{Name: "huge-values", Sc: scHuge(paramSet("0.1", "0.001"), d-1, b, 2), Oracles: o})
 		runs = append(runs, slashAfterRefundRun(o, MonFlags{}), priceFractionsRun(o, MonFlags{}, d, b, 2))
 		runs = append(runs, RunSpec{Name: "module-accounts-created-on-first-use", Sc: scLazyAccounts(paramSet("0.1", "0.001"), 7, 3, 4), Oracles: o, Conform: -1})
+		// failure paths: a consumer without coins calls a module service (the fee cannot be taken inside the message);
+		// a consumer who can pay the first provider of a batch but not the whole batch
+		runs = append(runs, msvcPoorRun(o, d-1, b-1, m))
+		runs = append(runs, twoContextsOneUnaffordableRuns(o, d-1, b, 2)...)
 		// the owning module starts a context again from inside the "paused: insufficient balances" state callback (the
 		// invariant makes no assumption about who changed what, so it can run under any rig)
 		runs = append(runs, RunSpec{Name: "mod-restart-in-callback", Sc: scModRestart(defaultParams(), []Template{tMod1, tModPoor},
@@ -292,6 +296,10 @@ func init() {
 		// an input whose text is not valid UTF-8 (refused by the unmodified module), and a restart along the way
 		runs = append(runs, RunSpec{Name: "input-not-utf8+restart", Sc: restartable(withFunds(scLife(paramSet("0.1", "0.001"), []Template{tBadUTF8, tRep2}, AlphaOpts{RespKinds: []string{"ok"}, CtxOps: []string{"pause", "start"}}, d-2, b, m), 40, 5)), Oracles: []Oracle{oracleC09{}}})
 		runs = append(runs, twoContextsOneUnaffordableRuns([]Oracle{oracleC09{}}, d-2, b-1, m)...)
+		// failure path: a module that starts its contexts without looking at the answer (what the keeper wrote before
+		// refusing stays), also after a restart from a zero-height export, where a one-shot context has no batch left
+		runs = append(runs, RunSpec{Name: "mod-start-refusal-ignored", Sc: restartable(scMod(defaultParams(), []Template{tModOne, tMod1},
+			AlphaOpts{RespKinds: []string{"ok"}, ModOps: []string{"mpause", "mstart!", "mkill"}}, d-2, b-1, m)), Oracles: []Oracle{oracleC09{}}})
 		for _, fl := range []bool{false, true} {
 			sc := scModPauseSiblings(defaultParams(), []Template{tModPoor, tMod1, tMod2}, AlphaOpts{RespKinds: []string{"ok"}, ModOps: []string{"mstart"}}, d-1, b-1, m)
 			sc.FlipIDs = fl
@@ -460,6 +468,7 @@ func init() {
 			{Name: "fees-auth", Sc: scFees(paramSet("0.1", "0.001"), true, 6+d, 3, 3), Oracles: o},
 			{Name: "fees-provider-is-owner", Sc: scFeesSelf(paramSet("0.1", "0.001"), 6+d, 3, 3), Oracles: o},
 			{Name: "msvc-reserved", Sc: scMsvc(defaultParams(), 5+d, 3, 3), Oracles: o},
+			msvcPoorRun(o, 5+d, 3, 3),
 			{Name: "bind-auth-restart", Sc: restartable(scBindAuth(defaultParams(), 6+d, 3, 3)), Oracles: o},
 			{Name: "fees-auth-restart", Sc: restartable(scFees(paramSet("0.1", "0.001"), true, 5+d, 3, 2)), Oracles: o},
 			{Name: "two-module-services-reserved", Sc: scMsvcTwo(defaultParams(), 4+d, 2, 4), Oracles: o},
@@ -470,6 +479,8 @@ func init() {
 			sc.FlipIDs = fl
 			runs = append(runs, RunSpec{Name: fmt.Sprintf("mod-pause-siblings-in-callback(flip=%v)", fl), Sc: sc, Oracles: o})
 		}
+		// a consumer who can pay the first provider of a due batch but not the whole batch (nothing may be taken from it)
+		runs = append(runs, twoContextsOneUnaffordableRuns(o, 6+d, 4, 2)...)
 		runs = append(runs, runsOf(lifeRuns(tier), o, MonFlags{})...)
 		return runs
 	}})
@@ -482,7 +493,8 @@ func init() {
 		return []RunSpec{
 			{Name: "names", Sc: scNames(defaultParams(), 6+d, 3, 4+d), Oracles: o},
 			{Name: "later-operations", Sc: scLife(defaultParams(), []Template{tOne, tRep2}, AlphaOpts{RespKinds: []string{"ok", "bad"}, CtxOps: []string{"pause", "start", "kill"}, Withdraw: []string{"O1:"},
-				BindOps: []Action{actDisable("a", "P1", "O1"), actEnable("a", "P1", "O1", 0), actUpdate("a", "P2", "O2", 0, "p3vv", 0), actUpdate("a", "P1", "O1", 0, "p1tp", 0), actUpdate("a", "P2", "O2", 0, "p1t", 0)}}, 7+d, 4, 2), Oracles: o},
+				BindOps: []Action{actDisable("a", "P1", "O1"), actEnable("a", "P1", "O1", 0), actUpdate("a", "P2", "O2", 0, "p3vv", 0), actUpdate("a", "P1", "O1", 0, "p1tp", 0), actUpdate("a", "P2", "O2", 0, "p1t", 0),
+					actUpdate("a", "P2", "O2", 0, "p4vd", 0), actUpdate("a", "P1", "O1", 0, "p4tr", 0)}}, 7+d, 4, 2), Oracles: o}, // p4vd, p4tr: pass the schema, refused by the keeper's rules for price terms
 			{Name: "bind-ops+slash", Sc: scBind(defaultParams(), bindOpsFull(), []Template{tSlash}, []string{"bad"}, 6+d, 4, 3), Oracles: o},
 			{Name: "bind-ops+slash-all", Sc: scBind(paramSet("0.5", "1"), bindOpsSmall(), []Template{tSlash2}, []string{"bad"}, 6+d, 4, 2), Oracles: o},
 			{Name: "slash-after-refund", Sc: scBind(defaultParams(), []Action{actBind("a", "P1", "O1", 10, "p1", 1), actDisable("a", "P1", "O1"), actRefund("a", "P1", "O1")}, []Template{tSlash3}, []string{"bad"}, 8+d, 5, 2), Oracles: o},
@@ -518,6 +530,13 @@ func init() {
 			}(), Oracles: o, Post: queryPost},
 			{Name: "mod-queries", Sc: scMod(defaultParams(), []Template{tMod1, tModPoor}, AlphaOpts{RespKinds: []string{"ok"}, ModOps: []string{"mpause", "mkill"}}, 6+d, 4, 2), Oracles: o, Post: queryPost},
 			{Name: "msvc-queries", Sc: scMsvc(defaultParams(), 4+d, 3, 3), Oracles: o, Post: queryPost},
+			// failure path: while answering, the host module asks for a context of its own under the same message (refused) and carries on
+			func() RunSpec {
+				sc := scMsvc(defaultParams(), 4+d, 3, 3)
+				sc.Name = "S-MSVC(host module creates a context while answering)"
+				sc.Rig.ModuleServices[0].CreatesContext = true
+				return RunSpec{Name: "msvc-host-creates-context-queries", Sc: sc, Oracles: o, Post: queryPost}
+			}(),
 			{Name: "many-bindings-queries", Sc: scManyBindings(defaultParams(), 2, 1, 2), Oracles: o, Post: queryPost, Conform: 4},
 			{Name: "life-queries-restart", Sc: restartable(scLife(defaultParams(), []Template{tRep2, tLong}, lo, 6+d, 4, 2)), Oracles: o, Post: queryPost},
 			{Name: "fx-queries", Sc: scFX(defaultParams(), "fusd1v", []Template{tFxOne, tFxRep}, AlphaOpts{RespKinds: []string{"ok"}, Withdraw: []string{"O1:"},
@@ -552,6 +571,8 @@ func init() {
 			{Name: "fees-self-export-points", Sc: scFeesSelf(paramSet("0.1", "0.001"), 5+d, 3, 3), Oracles: o, Post: genesisPost},
 			{Name: "names-export-points", Sc: scNames(defaultParams(), 5+d, 3, 4), Oracles: o, Post: genesisPost},
 			{Name: "mod-export-points", Sc: scMod(defaultParams(), []Template{tMod1, tModPoor}, AlphaOpts{RespKinds: []string{"ok"}, ModOps: []string{"mpause", "mkill"}}, 6+d, 4, 2), Oracles: o, Post: genesisPost},
+			// failure path: a consumer who cannot pay and an owning module that starts the context again inside the callback
+			{Name: "mod-restart-in-callback-export-points", Sc: scModRestart(defaultParams(), []Template{tMod1, tModPoor}, AlphaOpts{RespKinds: []string{"ok"}, ModOps: []string{"mpause", "mstart"}}, 5+d, 4, 2), Oracles: o, Post: genesisPost},
 			{Name: "price-zero-export-points", Sc: scPrice(paramSet("0.1", "0.001"), "p1v", "p0", []Template{tOne, tRep2}, AlphaOpts{RespKinds: []string{"ok"}}, 4+d, 3, 2), Oracles: o, Post: genesisPost},
 			{Name: "msvc-export-points", Sc: scMsvc(defaultParams(), 4+d, 3, 3), Oracles: o, Post: genesisPost},
 			{Name: "life-restart-export-points", Sc: restartable(scLife(defaultParams(), []Template{tRep2, tLong}, mainO, 6+d, 4, 2)), Oracles: o, Post: genesisPost},
@@ -714,6 +735,18 @@ func twoCreatesRun(o []Oracle, mon MonFlags, d, b, m int) RunSpec {
 // (1 to P2) but not the other (2 + 1); both processing orders.
 var tPoorBoth = Template{Name: "poorboth", Consumer: "C2", Service: "a", Providers: []string{"P1", "P2"}, Cap: 5, Timeout: 1, Repeated: true, Freq: 1, Total: 2}
 var tPoorP2 = Template{Name: "poorp2", Consumer: "C2", Service: "a", Providers: []string{"P2"}, Cap: 5, Timeout: 1, Repeated: true, Freq: 1, Total: 2}
+
+// msvcPoorRun: S-MSVC where an account that holds no coins (and one that holds 1) calls the module service priced at 2.
+var tMsvcNoCoins = Template{Name: "callmsnocoins", Consumer: "XX", Service: "ms", Providers: []string{"MSP"}, Cap: 5, Timeout: 1}
+var tMsvcOneCoin = Template{Name: "callmsonecoin", Consumer: "C2", Service: "ms", Providers: []string{"MSP"}, Cap: 5, Timeout: 1}
+
+func msvcPoorRun(o []Oracle, d, b, m int) RunSpec {
+	sc := scMsvc(defaultParams(), d, b, m)
+	sc.Name = "S-MSVC(consumers who cannot pay)"
+	sc.Funds = []Funding{{O1, 100}, {O2, 100}, {C1, 60}, {C2, 1}}
+	sc.Templates = []Template{tMsvcNoCoins, tMsvcOneCoin, tMsvc}
+	return RunSpec{Name: "msvc-consumer-cannot-pay", Sc: sc, Oracles: o}
+}
 
 func twoContextsOneUnaffordableRuns(o []Oracle, d, b, m int) []RunSpec {
 	var out []RunSpec
